@@ -9,9 +9,11 @@ import (
 	"os"
 	"os/exec"
 	"path/filepath"
+	"runtime"
 	"sort"
 	"strconv"
 	"sync"
+	"sync/atomic"
 
 	kv "github.com/XiXi-2024/xixi-kv"
 	"github.com/XiXi-2024/xixi-kv/vhook"
@@ -29,7 +31,7 @@ func init() {
 func (c16) ID() string    { return "C16" }
 func (c16) Level() string { return "exploration" }
 func (c16) Rule() string {
-	return "cases of six kinds on one directory: (race) 2..8 child PROCESSES (the harness binary in opener mode) x 1..4 goroutines each perform 50..400 Open attempts in total, also racing on a directory that does not exist yet; every successful opener immediately creates a token file with O_CREAT|O_EXCL in a side directory, writes a few uniquely named keys, removes the token and closes: a failing O_EXCL is an exact, clock-free witness that two holders overlapped; every rejected Open must return ErrDatabaseIsUsing; at the end all acknowledged keys must be readable; (fingerprint) while one holder sits idle, bursts of Open attempts from other processes and goroutines must all be rejected and must leave names, sizes, modes, mtimes and SHA-256 of every file of the directory unchanged; (release) Opens made to fail after the lock was taken (non-numeric *.data name, corrupt first chunk, data file replaced by a directory) must leave the directory openable - from the same process and from a child - once the cause is removed; (closing) at every file-level close event inside Close, observed through the hooks, an Open of the same directory must still be rejected (the holder lets go of the lock last), for both I/O types; (close-in-merge) Close is called from inside a running Merge of the same handle (at merge.afterRotate / merge.record / merge.beforeMarker, standard I/O): whatever Close answers, a second Open that succeeds while the first handle still accepts a Put means two owners; afterwards the directory must open and hold every key; (stale) Close on an already closed handle while another holder has the directory open must not let a third opener in. Non-trivial: race case with >=2 processes, >=1 rejected and >=2 successful Opens; distinct = hash of the case parameters and outcome counts"
+	return "cases of seven kinds on one directory: (race) 2..8 child PROCESSES (the harness binary in opener mode) x 1..4 goroutines each perform 50..400 Open attempts in total, also racing on a directory that does not exist yet; every successful opener immediately creates a token file with O_CREAT|O_EXCL in a side directory, writes a few uniquely named keys, removes the token and closes: a failing O_EXCL is an exact, clock-free witness that two holders overlapped; every rejected Open must return ErrDatabaseIsUsing; at the end all acknowledged keys must be readable; (fingerprint) while one holder sits idle, bursts of Open attempts from other processes and goroutines must all be rejected and must leave names, sizes, modes, mtimes and SHA-256 of every file of the directory unchanged; (release) Opens made to fail after the lock was taken (non-numeric *.data name, corrupt first chunk, data file replaced by a directory) must leave the directory openable - from the same process and from a child - once the cause is removed; (closing) at every file-level close event inside Close, observed through the hooks, an Open of the same directory must still be rejected (the holder lets go of the lock last), for both I/O types; (fail-race) on 200..400 fresh directories per case an Open that fails after taking the lock (unsupported I/O type) races with valid Opens from three goroutines that count themselves in and out: never more than one holder; (close-in-merge) Close is called from inside a running Merge of the same handle (at merge.afterRotate / merge.record / merge.beforeMarker, standard I/O): whatever Close answers, a second Open that succeeds while the first handle still accepts a Put means two owners; afterwards the directory must open and hold every key; (stale) Close on an already closed handle while another holder has the directory open must not let a third opener in. Non-trivial: race case with >=2 processes, >=1 rejected and >=2 successful Opens; distinct = hash of the case parameters and outcome counts"
 }
 func (c16) Assumptions() []string {
 	return []string{"flock semantics of the host kernel", "child processes are real OS processes started from the harness binary"}
@@ -53,7 +55,7 @@ func (c16) Cases(tier string, seed uint64) []core.Case {
 		n = 6000
 	}
 	r := core.NewRng(core.Mix(seed, 0xC16))
-	kinds := []string{"race", "race", "fingerprint", "release", "race", "stale", "closing", "race", "close-in-merge"}
+	kinds := []string{"race", "race", "fingerprint", "release", "race", "stale", "closing", "race", "close-in-merge", "fail-race"}
 	var out []core.Case
 	for i := 0; i < n; i++ {
 		out = append(out, core.Case{Index: i, ID: fmt.Sprintf("c16-%04d", i), Seed: r.U64(),
@@ -468,6 +470,76 @@ func (c16) Run(c core.Case, w *core.Worker) core.Result {
 		}
 		res.Add("closing_checks", 1)
 		res.Nontrivial = h.attempts > 3
+	case "fail-race":
+		// on a directory that has no lock file yet, an Open that is bound to fail AFTER it took
+		// the lock (unsupported I/O type) races with valid Opens from other goroutines; every
+		// successful opener counts itself in and out: more than one holder at a time, ever,
+		// is a violation. 200..400 fresh directories per case.
+		trials := 200 + c.Index%200
+		var holders, maxHolders atomic.Int64
+		nSucc, nFailBad := 0, 0
+		for t := 0; t < trials && res.Verdict != "violated"; t++ {
+			tdir := filepath.Join(dir, fmt.Sprintf("t%04d", t))
+			if t%2 == 0 {
+				os.MkdirAll(tdir, 0755) // existing but empty / not existing at all
+			}
+			var wg sync.WaitGroup
+			bad := cfg
+			bad.FileIO = 99
+			var badErr error
+			wg.Add(1)
+			go func() {
+				defer wg.Done()
+				core.Safe(func() {
+					var d *kv.DB
+					d, badErr = kv.Open(bad.Options(tdir))
+					if badErr == nil {
+						d.Close()
+					}
+				})
+			}()
+			succ := make([]int, 3)
+			for g := 0; g < 3; g++ {
+				wg.Add(1)
+				go func(g int) {
+					defer wg.Done()
+					for a := 0; a < 6; a++ {
+						var d *kv.DB
+						var err error
+						core.Safe(func() { d, err = kv.Open(cfg.Options(tdir)) })
+						if err != nil || d == nil {
+							runtime.Gosched()
+							continue
+						}
+						n := holders.Add(1)
+						for {
+							m := maxHolders.Load()
+							if n <= m || maxHolders.CompareAndSwap(m, n) {
+								break
+							}
+						}
+						succ[g]++
+						runtime.Gosched()
+						holders.Add(-1)
+						d.Close()
+					}
+				}(g)
+			}
+			wg.Wait()
+			for _, n := range succ {
+				nSucc += n
+			}
+			if badErr != nil {
+				nFailBad++
+			}
+			if maxHolders.Load() > 1 {
+				fail("two-holders", fmt.Sprintf("trial %d on a fresh directory: %d goroutines held an open database on the directory at the same time while an Open with an unsupported I/O type was failing next to them", t, maxHolders.Load()))
+			}
+		}
+		res.Add("fail_race_trials", int64(trials))
+		res.Add("open_successes", int64(nSucc))
+		res.Add("opens_failing_after_the_lock_was_taken", int64(nFailBad))
+		res.Nontrivial = nSucc > trials && nFailBad > trials/2
 	case "close-in-merge":
 		// Close is called while a Merge of the same handle is in its rewrite phase (no lock
 		// held). Whatever Close answers: if another Open of the directory then succeeds, the
